@@ -9,6 +9,7 @@ import weakref
 import numpy as np
 
 from gridrv import core, instrument
+from gridrv.monitors import roundtrip
 from gridrv.oracles import periodic_ref as pref
 
 PROP = "C10"
@@ -64,6 +65,9 @@ TOL_COPY = 1e-12  # lg.points vs points[idx] (bitwise equal today; relative to c
 
 # instances whose points / weights were reassigned through the public setter (history state, used for the failure signature)
 _STATE = weakref.WeakKeyDictionary()
+# objects that are (or were) one side of a copy.copy: they may share arrays with a sibling, so the workload never edits their
+# arrays in place (sharing is documented shallow-copy behaviour and is not decided)
+_SHARES = weakref.WeakSet()
 
 
 def _state(obj):
@@ -355,7 +359,7 @@ SEL_TARGETS = (
 )
 SEL_KINDS = ["int", "negint", "np.int8", "np.int16", "np.int32", "np.int64", "np.uint8", "np.uint64", "np.intp", "slice", "slice-step", "slice-neg", "slice-empty", "intarray", "intarray-rep", "intarray-neg", "int32array", "list", "boolmask", "boolmask-none", "empty-array"]
 
-WITNESSES = ["empty-ball", "numpy-int-index", "stale-tree", "atomgrid-centre", "inf-and-huge", "duplicates-and-ties", "size-one", "weights-follow", "zero-weights"]
+WITNESSES = ["empty-ball", "numpy-int-index", "stale-tree", "atomgrid-centre", "inf-and-huge", "duplicates-and-ties", "size-one", "weights-follow", "zero-weights", "clones"]
 
 
 def cases(tier, seed):
@@ -784,8 +788,63 @@ def do_select(ctx, g, kind=None, then_query=True):
     return sub
 
 
-OPS = ["ball", "neartie", "tie", "empty", "inf", "huge", "setp", "setw", "select"]
-OPS_P = [0.30, 0.12, 0.04, 0.12, 0.07, 0.03, 0.14, 0.08, 0.10]
+OPS = ["ball", "neartie", "tie", "empty", "inf", "huge", "setp", "setw", "select", "clone"]
+OPS_P = [0.27, 0.11, 0.04, 0.11, 0.06, 0.03, 0.13, 0.07, 0.09, 0.09]
+
+
+def _inplace_weights(obj):
+    w = obj.weights
+    if isinstance(w, np.ndarray) and w.flags.writeable and w.size:
+        w[...] = w + 1
+        mark(obj, "weights-reassign")
+
+
+def _inplace_points_then_reseat(obj):
+    """Edit the point array in place, then hand it back through the public setter (so that the object's own tree is rebuilt)."""
+    pts = obj.points
+    if isinstance(pts, np.ndarray) and pts.flags.writeable and pts.size:
+        pts += 3.0
+        obj.points = np.array(pts)
+        mark(obj, "points-reassign")
+
+
+def clone_step(ctx, g, subj, query_same, query_each, mutations):
+    """History operation 'replace the grid by a clone of itself and keep using BOTH'.
+
+    ``query_same(objs)`` sends one identical query to all objects, ``query_each(obj)`` a fresh query to one object;
+    ``mutations`` = [(name, fn(obj), inplace?)] applicable to this class.  Every query is decided by the attached
+    post-conditions against the queried object's OWN current public points/weights.  After mutating one of the two the
+    other one's public state must be unchanged (in-place edits are only made on deepcopy / pickle clones: sharing arrays
+    is documented behaviour of copy.copy and is not decided).  Returns the clone (None if cloning failed)."""
+    rng = ctx.rng
+    kind = roundtrip.pick(rng, 1)[0]
+    c = roundtrip.check_clone(ctx, subj, g, kind)
+    if c is None:
+        return None
+    ctx.count("op:clone-" + kind)
+    for m in filter(None, _state(g).split("+")):
+        mark(c, m)
+    if kind == "copy":
+        _SHARES.add(g)
+        _SHARES.add(c)
+    query_same([g, c])
+    objs = [g, c]
+    k = int(rng.integers(2))
+    mutated, other = objs[k], objs[1 - k]
+    usable = [m for m in mutations if not (m[2] and mutated in _SHARES)]
+    if usable:
+        name, fn, _ = usable[int(rng.integers(len(usable)))]
+        before = roundtrip.public_state(other)
+        with ctx.guard("clone-independent", f"{subj}:{kind}"):
+            fn(mutated)
+        after = roundtrip.public_state(other)
+        changed = sorted(key for key in before if before[key] != after.get(key))
+        who = "original" if k == 1 else "clone"
+        ctx.check("clone-independent", f"{subj}:{kind}", not changed, sig=f"{who}-changed-by-{name}-on-the-other:" + (changed[0] if changed else ""), detail={"changed": changed[:6], "mutation": name})
+        ctx.count("op:clone-mutation-" + name)
+    for o in (g, c):
+        query_each(o)
+    return c
 
 
 def run_history(ctx, g, nops):
@@ -797,8 +856,25 @@ def run_history(ctx, g, nops):
     ctx.case_note("N", int(g.size))
     ctx.case_note("points_settable", can_p)
     trace = []
+    live = [g]  # the instance and its clones: all of them stay in use
+    periodic = isinstance(g, PeriodicGrid)
+    clone_modes = ["ball", "neartie", "empty", "huge"] + ([] if periodic else ["inf"])
+    mutations = [("weights-setter", lambda o: do_set_weights(ctx, o), False), ("weights-in-place", _inplace_weights, True)] if can_w else []
+    if can_p:
+        mutations += [("points-setter", lambda o: do_set_points(ctx, o), False), ("points-in-place", _inplace_points_then_reseat, True)]
+
+    def query_same(objs):
+        pts = np.asarray(objs[0].points)
+        if len(pts) == 0:
+            return
+        c, r = pick_query(rng, pts, str(rng.choice(clone_modes)))
+        cc = _fmt_center(rng, c, pts.ndim == 1)
+        for o in objs:
+            _call(ctx, lambda: o.get_localgrid(cc, r))
+
     for _ in range(nops):
         op = str(rng.choice(OPS, p=OPS_P))
+        g = live[int(rng.integers(len(live)))]
         if op == "setp" and not can_p:
             ctx.count("op:set-points-not-offered:" + type(g).__name__)
             op = "ball"
@@ -815,13 +891,24 @@ def run_history(ctx, g, nops):
             if type(g).__name__ == "MolGrid":  # MolGrid.__getitem__ is a per-atom accessor, not a selection (not this property)
                 do_query(ctx, g, "ball")
             else:
-                do_select(ctx, g)
+                sub = do_select(ctx, g)
+                if sub is not None and getattr(sub, "size", 0) > 0 and getattr(sub, "realvecs", np.zeros(0)).size == 0 and rng.random() < 0.3:
+                    clone_step(ctx, sub, subject_of(sub), query_same, lambda o: do_query(ctx, o, str(rng.choice(clone_modes))), [])  # clone of a selection
+        elif op == "clone":
+            c = clone_step(ctx, g, subject_of(g), query_same, lambda o: do_query(ctx, o, str(rng.choice(clone_modes))), mutations)
+            if c is not None:
+                if len(live) < 3:
+                    live.append(c)
+                else:
+                    live[int(rng.integers(len(live)))] = c
         else:
             do_query(ctx, g, op)
-    # every history ends with a decided query after whatever happened before
-    do_query(ctx, g, "ball")
-    do_query(ctx, g, "neartie")
-    ctx.case_note("ops", "".join(o[0] if o not in ("setp", "setw", "select") else {"setp": "P", "setw": "W", "select": "S"}[o] for o in trace))
+    # every history ends with decided queries on every live object after whatever happened before
+    for o in live:
+        do_query(ctx, o, "ball")
+        do_query(ctx, o, "neartie")
+    ctx.case_note("ops", "".join(o[0] if o not in ("setp", "setw", "select", "clone") else {"setp": "P", "setw": "W", "select": "S", "clone": "C"}[o] for o in trace))
+    ctx.case_note("live_objects", len(live))
 
 
 # ------------------------------------------------------------------ cases
@@ -1052,6 +1139,41 @@ def run_witness(ctx, name):
             _call(ctx, lambda: g.get_localgrid(c, 0.8 * ext))
             if "Periodic" not in key:
                 _call(ctx, lambda: g.get_localgrid(c, np.inf))
+    elif name == "clones":
+        # every grid class x every way of cloning, after the tree was built; then reassign points on the original
+        # (where offered) and weights on the clone: each object answers for its own current state
+        from grid.angular import AngularGrid
+
+        grids["AngularGrid"] = AngularGrid(degree=7)
+        grids["LocalGrid"] = grids["Grid3"].get_localgrid(np.zeros(3), 1.5)
+        for key, g0 in grids.items():
+            for kind in roundtrip.KINDS:
+                g = roundtrip.clone(g0, "deepcopy")  # fresh object per kind
+                p = np.asarray(g.points)
+                c0 = p[0] if p.ndim == 2 else float(p[0])
+                ext = float(np.abs(p - p.mean(axis=0)).max()) or 1.0
+                _call(ctx, lambda: g.get_localgrid(c0, 0.7 * ext))  # builds the tree of the original
+                c = roundtrip.check_clone(ctx, subject_of(g), g, kind)
+                if c is None:
+                    continue
+                for o in (g, c):
+                    _call(ctx, lambda: o.get_localgrid(c0, 0.7 * ext))
+                if _settable(g, "points"):
+                    g.points = np.ascontiguousarray(p[::-1] + 2.0 * ext)
+                    mark(g, "points-reassign")
+                before = roundtrip.public_state(g)
+                c.weights = np.asarray(c.weights) * 2 + 1
+                mark(c, "weights-reassign")
+                ctx.check("clone-independent", f"{subject_of(g)}:{kind}", before == roundtrip.public_state(g), sig="original-changed-by-weights-setter-on-the-other:")
+                for o in (g, c):
+                    _call(ctx, lambda: o.get_localgrid(c0, 0.7 * ext))
+                    _call(ctx, lambda: o.get_localgrid(c0 + 2.0 * ext, 0.7 * ext))
+                    if "Periodic" not in key:
+                        _call(ctx, lambda: o.get_localgrid(c0, np.inf))
+                if key in ("Grid1", "Grid3", "GaussLegendre", "OneDGrid", "PeriodicGrid0-3"):
+                    for o in (g, c):
+                        _call(ctx, lambda: o[np.int64(1)])
+                        _call(ctx, lambda: o[::-2])
     elif name == "zero-weights":
         # membership must not depend on the weights: exact zeros of both signs, negative, denormal, integer weights
         wz = {
